@@ -338,9 +338,15 @@ func (w *World) RunBlock(b *Block) bool {
 	}
 	for ti := range b.Txs {
 		w.TxIdx = ti
-		w.RunTx(&b.Txs[ti])
-		if w.stop() {
-			return false
+		n := b.Txs[ti].Repeat
+		if n < 1 {
+			n = 1
+		}
+		for r := 0; r < n; r++ {
+			w.RunTx(&b.Txs[ti])
+			if w.stop() {
+				return false
+			}
 		}
 	}
 	w.TxIdx = -1
